@@ -14,7 +14,7 @@ R11.3 idempotence [proof]: applying the same frame again to the row it just upda
 from ..absint.batch import k2_results
 from ..absint.domain import EnumV
 from ..absint.k2 import changed_fields
-from ..absint.query import accepted, other_deps, sel, stores_of, summary
+from ..absint.query import accepted, ctl_other_deps, other_deps, sel, stores_of, summary
 from ..facts import Broken
 from ..report import Finding
 
@@ -30,6 +30,9 @@ MB = {"ais", "threat_encounter", "selected_altitude", "target_altitude_source", 
 DERIVED = {"altitude_gnss": {"altitude"}, "lat": {"cpr_lat", "cpr_lon"}, "lon": {"cpr_lat", "cpr_lon"},
            "distance_from_observer": {"cpr_lat", "cpr_lon", "lat", "lon"}, "position_timestamp": {"timestamp"},
            "cpr_time": {"timestamp"}, "bds_5_0_timestamp": {"timestamp"}, "track_timestamp": {"timestamp"}, "heading_timestamp": {"timestamp"}}
+
+
+GATING = {"capability", "cpr_time", "cpr_lat", "cpr_lon", "timestamp"}
 
 
 def allowed(r):
@@ -119,7 +122,9 @@ def run(facts, rep, tier):
             f = path[0][1]
             n2 += 1
             pre = {d[1].split(".")[0].split("[")[0] for d in other_deps(v) if isinstance(d, tuple) and d and d[0] == "pre"}
-            bad = pre - DERIVED.get(f, set()) - ({f} if False else set())
+            cpre = {d[1].split(".")[0].split("[")[0] for d in ctl_other_deps(v) if isinstance(d, tuple) and d and d[0] == "pre"}
+            # data: only the listed derivations; control: only the gating state (capability report, CPR pairing)
+            bad = (pre - DERIVED.get(f, set())) | (cpre - GATING - DERIVED.get(f, set()))
             ok = not bad
             rep.oblige(ok, ("latest", r.ctx["label"], f))
             if not ok:
